@@ -19,6 +19,8 @@
 (* different scope identities would carry the wrong scope and the wrong    *)
 (* configurator decision for one of them), and whether the telemetry       *)
 (* arrives at the exporter/reader under the scope of the handle.           *)
+(* A field may be EMPTY (no name / version / schema url given) - the empty   *)
+(* string is a value like any other for identity, and no name for rules.   *)
 (* Abstract scope identities are distinct tuples; the replayer also maps   *)
 (* them to concrete identities that are RELATED (concatenations of the     *)
 (* fields coincide, one field a prefix of another, empty fields).          *)
@@ -147,7 +149,7 @@ DevNarrow ==
 \* tags: vacuity guard (every tag must occur among the replayed cases)
 RuleTags(sc) ==
   LET ms == {k \in 1..Len(rules) : MatchRule(rules[k].m, sc)} IN
-  {t \in {"enabled", "disabled", "default", "second", "third", "shadowed", "byname", "bycond"} :
+  {t \in {"enabled", "disabled", "default", "second", "third", "shadowed", "byname", "bycond", "unnamed", "unnamedskip"} :
      CASE t = "enabled"  -> Enabled(sc)
        [] t = "disabled" -> ~Enabled(sc)
        [] t = "default"  -> rules # <<>> /\ ms = {}
@@ -155,7 +157,11 @@ RuleTags(sc) ==
        [] t = "third"    -> 1 \notin ms /\ 2 \notin ms /\ 3 \in ms
        [] t = "shadowed" -> \E j, k \in ms : j < k /\ rules[j].en # rules[k].en
        [] t = "byname"   -> ms # {} /\ rules[CHOOSE k \in ms : \A j \in ms : k <= j].m.k = "name"
-       [] t = "bycond"   -> ms # {} /\ rules[CHOOSE k \in ms : \A j \in ms : k <= j].m.k # "name"}
+       [] t = "bycond"   -> ms # {} /\ rules[CHOOSE k \in ms : \A j \in ms : k <= j].m.k # "name"
+       \* a scope WITHOUT name; ... whose decision is taken after a rule naming another scope was passed over
+       [] t = "unnamed"  -> sc.name = ""
+       [] t = "unnamedskip" -> sc.name = "" /\ \E k \in 1..Len(rules) :
+                               rules[k].m.k = "name" /\ rules[k].en # Enabled(sc) /\ \A j \in ms : k < j}
 Sweep == PrintT(<<"BEHS", ToJson([signal |-> signal, rules |-> rules, dflt |-> dflt,
                                   cases |-> {[scope |-> sc, enabled |-> Enabled(sc), tags |-> RuleTags(sc),
                                               shares |-> {o \in ScopeSet \ {sc} : Askable(o) /\ MustShare(o, sc)}] :
@@ -192,8 +198,15 @@ SB  == Sc("B", "1.0", "", "")
 SC  == Sc("C", "", "", "")
 SAe == Sc("A", "", "t", "")         \* empty version
 SBs == Sc("B", "", "s", "")
+\* identities WITHOUT a name (Get*("") is accepted, the providers only log) and every combination of
+\* empty / given name, version and schema url: still distinguished by exactly the four fields, and a
+\* rule that names a scope does not apply to the unnamed one
+SN  == Sc("", "", "", "")
+SNv == Sc("", "1.0", "", "")
+ScopesE   == {Sc(n, v, s, "") : n \in {"", "A"}, v \in {"", "1.0"}, s \in {"", "s"}}
 Scopes5   == {SA1, SA2, SAt, SB, SC}
 Scopes7   == {SA1, SA2, SAt, SB, SC, SAe, SBs}
+Scopes9   == Scopes7 \cup {SN, SNv}
 Scopes3   == {SA1, SB, SC}
 ScopesLog == {SA1, SAa, SB}
 Matchers5 == {Mt("name", "A"), Mt("name", "B"), Mt("ver", "1.0"), Mt("any", ""), Mt("none", "")}
